@@ -72,6 +72,25 @@ impl Property for C05 {
             t += 10;
         }
         t += 1_000;
+        // a full store a day later: some of the oldest pairs re-announce hours after the fill; more
+        // than 24 h after the fill (everything not renewed has expired) the probe phase below runs
+        // and its announces must be acknowledged, not refused as "full"
+        if prefill == 500 && rng.chance(1, 2) {
+            let renew_at = t + rng.range(3_600_000, 20 * 3_600_000);
+            for k in 0..rng.range(1, 4) as usize {
+                let fam6 = v6;
+                let _ = fam6;
+                let src = addr(v6, 2, 1000 + k as u32, 20_000);
+                announce_chain(&mut sc, &mut tids, When::At(renew_at + 10 * k as u64), src, node, &pid, &ihs[0], None);
+                announce_chain(&mut sc, &mut tids, When::At(renew_at + 10 * k as u64 + 5), src, node, &pid, &ihs[1], None);
+                announce_chain(&mut sc, &mut tids, When::At(renew_at + 10 * k as u64 + 8), src, node, &pid, &ihs[2], None);
+            }
+            t += 86_400_000 + 120_000;
+            // (a day-long run is affordable only on a node that does not re-bootstrap every 5 s)
+            sc.reals[0].nodes.clear();
+            sc.world.stubs.clear();
+            sc.params.insert("day_after_full_store".into(), 1);
+        }
         // the probe phase
         let n_msgs = rng.range(10, 80);
         let mut gets: Vec<(usize, SocketAddr)> = Vec::new();
@@ -214,6 +233,9 @@ impl Property for C05 {
             v.sample = json!({"read_only": true, "queries_delivered": open.len()});
             return v;
         }
+        if sc.param("day_after_full_store") != 0 {
+            v.hit("probes_a_day_after_the_store_was_full");
+        }
         if run.stats.get("fault_recv_err").copied().unwrap_or(0) >= 3 {
             v.hit("three_or_more_recv_errors");
         }
@@ -224,7 +246,7 @@ impl Property for C05 {
         }
         // token + store models (as far as needed to classify announce replies)
         let mut issued: BTreeMap<(Vec<u8>, IpAddr), u64> = BTreeMap::new();
-        let mut stored: BTreeSet<([u8; 20], SocketAddr)> = BTreeSet::new();
+        let mut stored: BTreeMap<([u8; 20], SocketAddr), u64> = BTreeMap::new();
         let mut answered = 0u64;
         for (q, r) in &pairs {
             let qm = q.msg.as_ref().unwrap();
@@ -325,7 +347,7 @@ impl Property for C05 {
                         if known_bad {
                             v.violate("C05", "bad_token_acked", now, format!("announce_peer from {} with a token this node never issued was acknowledged", q.src));
                         }
-                        stored.insert((ih, contact));
+                        stored.insert((ih, contact), now);
                     }
                     Kind::Error { code: 203, .. } => {
                         v.hit("announce_203");
@@ -335,8 +357,10 @@ impl Property for C05 {
                     }
                     Kind::Error { code: 202, .. } => {
                         v.hit("announce_202");
-                        if stored.len() < 500 || !good {
-                            v.violate("C05", "unexpected_202", now, format!("announce_peer refused with 202 while {} pairs are stored (token valid: {good})", stored.len()));
+                        // pairs that can still be live (acknowledged less than 24 h + 10 s ago)
+                        let maybe_live = stored.values().filter(|ts| now < **ts + 86_400_000 + 10_000).count();
+                        if maybe_live < 500 || !good {
+                            v.violate("C05", "unexpected_202", now, format!("announce_peer refused with 202 while at most {maybe_live} pairs can be live (token valid: {good})"));
                         }
                     }
                     _ => {}
@@ -354,6 +378,6 @@ impl Property for C05 {
         vec!["'well-formed' is decided by the simulator's independent codec; the generator avoids grey-zone inputs (trailing bytes, non-UTF-8 want entries, missing port)"]
     }
     fn required_reach(&self) -> Vec<&'static str> {
-        vec!["answered_ping", "answered_find_node", "answered_get_peers", "answered_announce_peer", "announce_acked", "announce_203", "announce_202", "long_transaction_id", "empty_transaction_id", "want_given", "reply_with_nodes", "reply_with_values", "read_only_run", "three_or_more_recv_errors"]
+        vec!["answered_ping", "answered_find_node", "answered_get_peers", "answered_announce_peer", "announce_acked", "announce_203", "announce_202", "long_transaction_id", "empty_transaction_id", "want_given", "reply_with_nodes", "reply_with_values", "read_only_run", "three_or_more_recv_errors", "probes_a_day_after_the_store_was_full"]
     }
 }
